@@ -297,8 +297,8 @@ def rule_drain(ctx, rep):
     for vb in ctx.prog.bodies.values():
         im = vb.f.get("impl")
         if im and im.get("self") == VIS and im.get("trait_def") == "ironplc_dsl::visitor::Visitor":
-            adds = [c for c in vb.calls() if c.callee and c.callee.endswith("DeclarationsGraph::add_node")]
-            overrides[vb.f["name"]] = bool(adds)
+            from rules.c07 import may_do
+            overrides[vb.f["name"]] = may_do(ctx, vb, "DeclarationsGraph::add_node")
     # map variant -> the visit method of its payload type
     def visit_name(adt, variant):
         a = ctx.facts.adts.get("ironplc_dsl::common::" + adt)
